@@ -155,3 +155,51 @@ Example C06_once_dyndep_nonvacuous :
   is_some (run dd_graph dd_cfg dd_loads [] dd_snap dd_trace) = true /\
   is_some (run dd_graph dd_cfg dd_loads [] dd_snap dd_trace_twice) = false.
 Proof. split; vm_compute; reflexivity. Qed.
+
+(* ---- the OLD Plan::RefreshDyndepDependents (before "fix: schedule validation targets discovered by a
+   mid-build dyndep load"): a validation target met by the re-scan after a dyndep load was inserted into
+   want_ by AddTarget and was not on dyndep_walk; when all its inputs were ready nobody called
+   EdgeMaybeReady for it and Build() ended with "stuck [this is a bug]", exit status 0.  [accepts_old] /
+   [step_res_old] = the same model with [apply_load_old] (the guard "every edge that became ready is
+   visited" not enforced); the witness is [vs_graph] of PlanDefs.v. ---- *)
+Definition C06_never_stuck_old : Prop :=
+  forall g cfg loads rank, wf_graph g rank -> 0 < c_k cfg -> 0 < c_j cfg ->
+  forall prio sn evs s code, wf_snap g sn ->
+  accepts_old g cfg loads (init_state g cfg prio sn) evs = Some s ->
+  forall s', step_res_old g cfg loads s (EvExit code MStuck) <> Ok s'.
+
+Lemma vs_wf_graph : wf_graph vs_graph (fun e => e).
+Proof. apply wf_graph_b_sound. vm_compute. reflexivity. Qed.
+Lemma vs_wf_snap : wf_snap vs_graph vs_snap.
+Proof.
+  apply wf_snap_b_sound; [|vm_compute; reflexivity].
+  intros e He. change (n_edges vs_graph) with 4 in He. unfold vs_snap. cbn [sn_want sn_oready].
+  destruct e as [|[|[|[|e]]]]; try lia. split; reflexivity.
+Qed.
+
+Theorem C06_never_stuck_old_refuted : ~ C06_never_stuck_old.
+Proof.
+  intros H.
+  destruct (accepts_old vs_graph vs_cfg vs_loads_old (init_state vs_graph vs_cfg [] vs_snap) vs_trace_old) as [s|] eqn:E;
+    [|vm_compute in E; discriminate].
+  destruct (step_res_old vs_graph vs_cfg vs_loads_old s (EvExit 0 MStuck)) as [s'| |] eqn:E2.
+  - apply (H vs_graph vs_cfg vs_loads_old (fun e => e) vs_wf_graph ltac:(cbn; lia) ltac:(cbn; lia)
+             [] vs_snap vs_trace_old s 0 vs_wf_snap E s' E2).
+  - pose proof vs_old_stuck as W. rewrite E, E2 in W. discriminate.
+  - pose proof vs_old_stuck as W. rewrite E, E2 in W. discriminate.
+Qed.
+Print Assumptions C06_never_stuck_old_refuted.
+
+(* the fixed model refuses that walk, accepts the one with the validation target on it, and
+   [C06_never_stuck] above covers it: its premises hold for this graph, snapshot and payload *)
+Example C06_never_stuck_dyndep_nonvacuous :
+  is_some (run vs_graph vs_cfg vs_loads_old [] vs_snap [EvStart 2 []; EvWait; EvFinish 2 0 []]) = false /\
+  exists s, reachable vs_graph vs_cfg vs_loads_new s /\ s_phase s = PhBuild /\
+            step vs_graph vs_cfg vs_loads_new s (EvExit 0 MStuck) = None.
+Proof.
+  split; [vm_compute; reflexivity|].
+  destruct (is_some_run vs_graph vs_cfg vs_loads_new [] vs_snap [EvStart 2 []; EvWait; EvFinish 2 0 []]) as [s Hs];
+    [vm_compute; reflexivity|].
+  exists s. split; [apply (run_reachable _ _ _ _ _ _ _ vs_wf_snap Hs)|].
+  vm_compute in Hs. injection Hs as <-. split; vm_compute; reflexivity.
+Qed.
